@@ -967,3 +967,261 @@ Lemma rename_witness :
   read_line (schema_with [new_variant_no_alias]) (write_line (schema_with [old_variant]) ev_str) = None
   /\ read_line (schema_with [new_variant_alias]) (write_line (schema_with [old_variant]) ev_str) = Some ev_str.
 Proof. split; vm_compute; reflexivity. Qed.
+
+(* ================= the sidecar as a cache that can be lost while the store lives =================
+   After ANY history of emits, sidecar losses (one stream / the directory) and replays, replay_events of a stream
+   returns the frames of the log for that stream = the frames the live subscriber received (canonical form),
+   provided the replay check is the one of today's source (wf_replay_check: first line seq 0, successor seqs, empty
+   refused, log fallback) and the store numbers every stream 0,1,2,...  Dropping "first line seq 0" breaks it. *)
+Lemma key_eqb_spec a b : key_eqb a b = true <-> a = b.
+Proof.
+  unfold key_eqb. rewrite andb_true_iff, N.eqb_eq, str_eqb_spec. destruct a as [a1 a2], b as [b1 b2]. cbn [fst snd].
+  split; [intros [-> ->]; reflexivity | intros H; inversion H; auto].
+Qed.
+
+Lemma key_eqb_refl a : key_eqb a a = true.
+Proof. apply key_eqb_spec. reflexivity. Qed.
+
+Lemma side_of_app key a b : side_of key (a ++ b) = side_of key a ++ side_of key b.
+Proof. unfold side_of. rewrite filter_app, map_app. reflexivity. Qed.
+
+Lemma side_of_drop_same key sd : side_of key (drop_key key sd) = [].
+Proof.
+  unfold side_of, drop_key. induction sd as [|x sd IH]; [reflexivity|]. cbn [filter].
+  destruct (key_eqb (side_key x) key) eqn:E; cbn [negb filter]; [exact IH | rewrite E; exact IH].
+Qed.
+
+Lemma side_of_drop_other key key0 sd : key_eqb key key0 = false -> side_of key (drop_key key0 sd) = side_of key sd.
+Proof.
+  intros Hne. unfold side_of, drop_key. induction sd as [|x sd IH]; [reflexivity|]. cbn [filter].
+  destruct (key_eqb (side_key x) key0) eqn:E0; cbn [negb filter].
+  - destruct (key_eqb (side_key x) key) eqn:E1; [|exact IH].
+    apply key_eqb_spec in E0, E1. rewrite <- E1, E0, key_eqb_refl in Hne. discriminate.
+  - destruct (key_eqb (side_key x) key) eqn:E1; cbn [map]; rewrite IH; reflexivity.
+Qed.
+
+Lemma side_of_rebuilt (f : event -> str) key key0 es :
+  side_of key (map (fun e => (fst key0, snd key0, f e)) es) = if key_eqb key0 key then map f es else [].
+Proof.
+  unfold side_of, side_key. destruct key0 as [a b]. cbn [fst snd].
+  induction es as [|e es IH]; [destruct (key_eqb (a, b) key); reflexivity|].
+  cbn [map filter fst snd]. destruct (key_eqb (a, b) key) eqn:E; cbn [map snd]; rewrite IH; reflexivity.
+Qed.
+
+Lemma of_stream_app s key a b : of_stream s key (a ++ b) = of_stream s key a ++ of_stream s key b.
+Proof. unfold of_stream. apply filter_app. Qed.
+
+Lemma skipn_app_le {A} n (l l2 : list A) : (n <= length l)%nat -> skipn n (l ++ l2) = skipn n l ++ l2.
+Proof.
+  revert l. induction n as [|n IH]; intros l Hn; [reflexivity|].
+  destruct l as [|x l]; cbn [length] in Hn; [lia|]. cbn [app skipn]. apply IH. lia.
+Qed.
+
+Lemma skipn_length_nil {A} (l : list A) : skipn (length l) l = [].
+Proof. induction l as [|x l IH]; [reflexivity | exact IH]. Qed.
+
+Definition side_inv (s : schema) (es : list event) (sd : list (N * str * str)) : Prop :=
+  forall key, exists n, (n <= length (of_stream s key es))%nat
+                        /\ side_of key sd = map (write_line s) (skipn n (of_stream s key es)).
+
+Definition hist_inv (s : schema) (es : list event) (k : sinks) : Prop :=
+  k_log k = map (write_line s) es /\ k_live k = es /\ k_buffer k = es /\ side_inv s es (k_sidecar k).
+
+Lemma hist_inv0 s : hist_inv s [] sinks0.
+Proof. repeat split. intros key. exists 0%nat. split; [cbn; lia | reflexivity]. Qed.
+
+Lemma hist_inv_emit s es k e : hist_inv s es k -> hist_inv s (es ++ [e]) (emit s k e).
+Proof.
+  intros [Hl [Hv [Hb Hs]]]. unfold emit. repeat split; cbn [k_log k_live k_buffer k_sidecar].
+  - rewrite Hl, map_app. reflexivity.
+  - rewrite Hv. reflexivity.
+  - rewrite Hb. reflexivity.
+  - intros key. destruct (Hs key) as [n [Hn Hk]]. exists n. rewrite of_stream_app, side_of_app, Hk. split.
+    + rewrite app_length. lia.
+    + rewrite skipn_app_le by exact Hn. rewrite map_app. f_equal.
+      unfold side_of, of_stream. cbn [filter]. unfold side_key. cbn [fst snd]. rewrite key_pair.
+      destruct (key_eqb (stream_key s e) key); reflexivity.
+Qed.
+
+Lemma hist_inv_lose s es k key0 : hist_inv s es k -> hist_inv s es (with_sidecar k (drop_key key0 (k_sidecar k))).
+Proof.
+  intros [Hl [Hv [Hb Hs]]]. repeat split; cbn [with_sidecar k_log k_live k_buffer k_sidecar]; try assumption.
+  intros key. destruct (key_eqb key key0) eqn:E.
+  - apply key_eqb_spec in E. subst key0. exists (length (of_stream s key es)). split; [lia|].
+    rewrite side_of_drop_same, skipn_length_nil. reflexivity.
+  - destruct (Hs key) as [n [Hn Hk]]. exists n. split; [exact Hn|]. rewrite side_of_drop_other by exact E. exact Hk.
+Qed.
+
+Lemma hist_inv_lose_all s es k : hist_inv s es k -> hist_inv s es (with_sidecar k []).
+Proof.
+  intros [Hl [Hv [Hb Hs]]]. repeat split; cbn [with_sidecar k_log k_live k_buffer k_sidecar]; try assumption.
+  intros key. exists (length (of_stream s key es)). split; [lia|]. rewrite skipn_length_nil. reflexivity.
+Qed.
+
+Definition wire_ok (s : schema) (es : list event) : Prop := Forall (fun e => wire_event s e = true) es.
+
+Lemma write_line_canon s e : wire_event s e = true -> write_line s (canon_event s e) = write_line s e.
+Proof. intros H. unfold write_line. rewrite encode_canon by exact H. reflexivity. Qed.
+
+Lemma view_log_inv s es k key :
+  wf_schema s = true -> all_ok s es -> hist_inv s es k ->
+  view_log s key k = Some (map (canon_event s) (of_stream s key es)).
+Proof.
+  intros Hwf Hok [Hl _]. unfold view_log. rewrite Hl, (read_lines s es Hwf Hok). cbn [option_map].
+  rewrite of_stream_canon. reflexivity.
+Qed.
+
+Lemma wire_ok_filter s p es : wire_ok s es -> wire_ok s (filter p es).
+Proof. unfold wire_ok. rewrite !Forall_forall. intros H e He. apply filter_In in He. apply H. tauto. Qed.
+
+Lemma map_write_canon s es : wire_ok s es -> map (write_line s) (map (canon_event s) es) = map (write_line s) es.
+Proof.
+  intros H. induction H as [|e es He _ IH]; [reflexivity|]. cbn [map]. rewrite IH, write_line_canon by exact He. reflexivity.
+Qed.
+
+Lemma hist_inv_replay rc s es k key0 :
+  wf_schema s = true -> all_ok s es -> wire_ok s es -> hist_inv s es k ->
+  hist_inv s es (snd (replay_events rc s key0 k)).
+Proof.
+  intros Hwf Hok Hw Hinv. unfold replay_events.
+  destruct (try_replay rc s key0 (k_sidecar k)); [exact Hinv|].
+  destruct (rc_fallback_log rc); [|exact Hinv].
+  rewrite (view_log_inv s es k key0 Hwf Hok Hinv). cbn [snd].
+  destruct (map (canon_event s) (of_stream s key0 es)) as [|c cs] eqn:Ec; [exact Hinv|]. rewrite <- Ec. clear c cs Ec.
+  destruct Hinv as [Hl [Hv [Hb Hs]]]. repeat split; cbn [with_sidecar k_log k_live k_buffer k_sidecar]; try assumption.
+  intros key. rewrite side_of_app, side_of_rebuilt. destruct (key_eqb key key0) eqn:E.
+  - apply key_eqb_spec in E. subst key0. rewrite key_eqb_refl, side_of_drop_same. exists 0%nat. split; [lia|].
+    cbn [app skipn]. apply map_write_canon. apply wire_ok_filter. exact Hw.
+  - assert (E' : key_eqb key0 key = false).
+    { destruct (key_eqb key0 key) eqn:E2; [|reflexivity]. apply key_eqb_spec in E2. subst key0. rewrite key_eqb_refl in E. discriminate. }
+    rewrite E', app_nil_r, side_of_drop_other by exact E. apply Hs.
+Qed.
+
+Lemma run_hist_inv rc s hs :
+  wf_schema s = true -> all_ok s (emitted hs) -> wire_ok s (emitted hs) ->
+  hist_inv s (emitted hs) (run_hist rc s hs).
+Proof.
+  intros Hwf. unfold run_hist.
+  assert (G : forall hs es k, hist_inv s es k -> all_ok s (es ++ emitted hs) -> wire_ok s (es ++ emitted hs) ->
+                              hist_inv s (es ++ emitted hs) (fold_left (hstep_run rc s) hs k)).
+  { clear hs. induction hs as [|h hs IH]; intros es k Hinv Hok Hw; cbn [fold_left emitted flat_map].
+    - rewrite app_nil_r. exact Hinv.
+    - fold (emitted hs). fold (emitted hs) in Hok, Hw. cbn [emitted flat_map] in Hok, Hw. fold (emitted hs) in Hok, Hw.
+      destruct h as [e | key0 | | key0]; cbn [hstep_run app] in *.
+      + change (e :: emitted hs) with ([e] ++ emitted hs) in *. rewrite app_assoc in *. apply IH; try assumption.
+        apply hist_inv_emit. exact Hinv.
+      + apply IH; try assumption. apply hist_inv_lose. exact Hinv.
+      + apply IH; try assumption. apply hist_inv_lose_all. exact Hinv.
+      + apply IH; try assumption. apply hist_inv_replay; try assumption.
+        * unfold all_ok in *. apply Forall_app in Hok. tauto.
+        * unfold wire_ok in *. apply Forall_app in Hw. tauto. }
+  intros Hok Hw. apply (G hs [] sinks0 (hist_inv0 s)); assumption.
+Qed.
+
+Lemma canon_event_seq s e : e_seq (canon_event s e) = e_seq e.
+Proof. unfold canon_event. destruct (nth_error (s_variants s) (e_var e)); reflexivity. Qed.
+
+Lemma seqs_from_skipn n : forall m (l : list event) e r,
+  seqs_from m l = true -> skipn n l = e :: r -> e_seq e = (m + N.of_nat n)%N.
+Proof.
+  induction n as [|n IH]; intros m l e r Hs Hk.
+  - cbn [skipn] in Hk. subst l. cbn [seqs_from] in Hs. apply andb_true_iff in Hs. destruct Hs as [Hs _].
+    apply N.eqb_eq in Hs. lia.
+  - destruct l as [|x l]; cbn [skipn] in Hk; [discriminate|]. cbn [seqs_from] in Hs. apply andb_true_iff in Hs.
+    destruct Hs as [_ Hs]. rewrite (IH _ _ _ _ Hs Hk). lia.
+Qed.
+
+Lemma all_ok_skipn s n es : all_ok s es -> all_ok s (skipn n es).
+Proof.
+  unfold all_ok. rewrite !Forall_forall. intros H e He. apply H. rewrite <- (firstn_skipn n es). apply in_or_app. right. exact He.
+Qed.
+
+(* the central statement: on an invariant state the store's replay of a stream is the log's view of it *)
+Lemma replay_events_inv rc s es k key :
+  wf_schema s = true -> wf_replay_check rc = true -> all_ok s es -> hist_inv s es k ->
+  seqs_from 0 (of_stream s key es) = true ->
+  fst (replay_events rc s key k) = Some (map (canon_event s) (of_stream s key es)).
+Proof.
+  intros Hwf Hrc Hok Hinv Hseq. unfold wf_replay_check in Hrc. rewrite !andb_true_iff in Hrc.
+  destruct Hrc as [[[Hz Hsu] Hem] Hfb].
+  pose proof (view_log_inv s es k key Hwf Hok Hinv) as Hlog.
+  unfold replay_events. rewrite Hfb, Hlog.
+  assert (Hfall : forall o : option (list event),
+            (forall v, o = Some v -> v = map (canon_event s) (of_stream s key es)) ->
+            fst match o with
+                | Some es0 => (Some es0, k)
+                | None => (Some (map (canon_event s) (of_stream s key es)),
+                           match map (canon_event s) (of_stream s key es) with
+                           | [] => k
+                           | _ :: _ => with_sidecar k (drop_key key (k_sidecar k) ++
+                                         map (fun e => (fst key, snd key, write_line s e)) (map (canon_event s) (of_stream s key es)))
+                           end)
+                end = Some (map (canon_event s) (of_stream s key es))).
+  { intros [v|] Hv; cbn [fst]; [rewrite (Hv v eq_refl)|]; reflexivity. }
+  apply Hfall. intros v Hv. destruct Hinv as [_ [_ [_ Hs]]]. destruct (Hs key) as [n [Hn Hk]].
+  unfold try_replay in Hv. rewrite Hk, Hz, Hsu, Hem in Hv. cbn [negb orb] in Hv.
+  destruct (skipn n (of_stream s key es)) as [|e r] eqn:Esk; cbn [map] in Hv; [discriminate|].
+  change (write_line s e :: map (write_line s) r) with (map (write_line s) (e :: r)) in Hv.
+  assert (Hok' : all_ok s (e :: r)). { rewrite <- Esk. apply all_ok_skipn, all_ok_filter. exact Hok. }
+  rewrite (read_lines s (e :: r) Hwf Hok') in Hv.
+  destruct (first_zero (map (canon_event s) (e :: r)) && follows (map (canon_event s) (e :: r))) eqn:Echk; [|discriminate].
+  inversion Hv; subst v. apply andb_true_iff in Echk. destruct Echk as [Hfz _].
+  cbn [map first_zero] in Hfz. rewrite canon_event_seq in Hfz. apply N.eqb_eq in Hfz.
+  pose proof (seqs_from_skipn n 0 _ e r Hseq Esk) as Hse. assert (n = 0%nat) by lia. subst n.
+  cbn [skipn] in Esk. rewrite Esk. reflexivity.
+Qed.
+
+Theorem replay_after_loss rc s hs key :
+  wf_schema s = true -> wf_replay_check rc = true ->
+  all_ok s (emitted hs) -> wire_ok s (emitted hs) ->
+  seqs_from 0 (of_stream s key (emitted hs)) = true ->
+  let k := run_hist rc s hs in
+  fst (replay_events rc s key k) = Some (map (canon_event s) (view_live s key k))
+  /\ view_log s key k = Some (map (canon_event s) (view_live s key k))
+  /\ k_live k = emitted hs.
+Proof.
+  intros Hwf Hrc Hok Hw Hseq k. pose proof (run_hist_inv rc s hs Hwf Hok Hw) as Hinv. fold k in Hinv.
+  assert (Hlive : k_live k = emitted hs) by (destruct Hinv as [_ [H _]]; exact H).
+  unfold view_live. rewrite Hlive. split; [|split; [|reflexivity]].
+  - apply replay_events_inv; assumption.
+  - apply view_log_inv; assumption.
+Qed.
+
+(* the check of the seeded change C03-2: "each frame follows the frame before it", first line free *)
+Definition rc_no_first_zero : replay_check :=
+  {| rc_first_zero := false; rc_successor := true; rc_empty_refused := true; rc_fallback_log := true |}.
+Definition demo_seq (n : N) : event :=
+  {| e_id := [105; n + 48]; e_sid := [116]; e_ts := 1758000000000; e_seq := n; e_var := 0;
+     e_fields := [VVal JNull; VOpt None; VOpt None; VVec []; VInt 0%Z] |}.
+Definition demo_key : N * str := stream_key demo_schema (demo_seq 0).
+Definition demo_loss_history : list hstep :=
+  [HEmit (demo_seq 0); HEmit (demo_seq 1); HLoseAll; HEmit (demo_seq 2); HEmit (demo_seq 3); HReplay demo_key].
+
+Lemma demo_loss_history_ok :
+  wf_schema demo_schema = true /\ all_ok demo_schema (emitted demo_loss_history) /\ wire_ok demo_schema (emitted demo_loss_history)
+  /\ seqs_from 0 (of_stream demo_schema demo_key (emitted demo_loss_history)) = true
+  /\ length (of_stream demo_schema demo_key (emitted demo_loss_history)) = 4%nat.
+Proof.
+  split; [vm_compute; reflexivity|]. split; [repeat constructor; vm_compute; reflexivity|].
+  split; [repeat constructor; vm_compute; reflexivity|]. split; vm_compute; reflexivity.
+Qed.
+
+Lemma replay_suffix_witness :
+  fst (replay_events rc_no_first_zero demo_schema demo_key (run_hist rc_no_first_zero demo_schema demo_loss_history))
+  = Some [demo_seq 2; demo_seq 3].
+Proof. vm_compute. reflexivity. Qed.
+
+Theorem replay_needs_first_zero_refuted :
+  exists rc s hs key,
+    rc_successor rc = true /\ rc_empty_refused rc = true /\ rc_fallback_log rc = true
+    /\ wf_schema s = true /\ all_ok s (emitted hs) /\ wire_ok s (emitted hs)
+    /\ seqs_from 0 (of_stream s key (emitted hs)) = true
+    /\ fst (replay_events rc s key (run_hist rc s hs)) <> Some (map (canon_event s) (view_live s key (run_hist rc s hs))).
+Proof.
+  exists rc_no_first_zero, demo_schema, demo_loss_history, demo_key.
+  destruct demo_loss_history_ok as [H1 [H2 [H3 [H4 _]]]].
+  repeat split; try assumption. rewrite replay_suffix_witness. vm_compute. discriminate.
+Qed.
+
+Lemma rc_code_wf : wf_replay_check rc_code = true.
+Proof. reflexivity. Qed.
